@@ -12,7 +12,7 @@ ARGN = {
     "settol": 2, "calcnorm": 3, "calccurv": 3, "setprops": 3, "warp": 3, "asorig": 1, "decompose": 1,
     "rt64": 1, "rt32": 1, "rtobj": 1, "copy": 1, "assign": 2, "moveout": 1, "drop": 1, "force": 2,
     "slice": 2, "project": 1,
-    "circle": 2, "square": 3, "xpoly": 4, "xrot": 2, "xtrans": 3, "xscale": 3, "xmirror": 3, "xadd": 2, "xsub": 2,
+    "circle": 2, "xmulti": 3, "ctor": 3, "square": 3, "xpoly": 4, "xrot": 2, "xtrans": 3, "xscale": 3, "xmirror": 3, "xadd": 2, "xsub": 2,
     "xint": 2, "xoffset": 4, "xhull": 1, "xsimplify": 2, "xsettol": 2, "xdecompose": 1, "xwarp": 2, "xcopy": 1,
     "xassign": 2, "xforce": 2,
 }
@@ -20,7 +20,7 @@ ARGN = {
 # Op mixes. Weights are relative.
 MIX_GENERAL = {
     "nest": 2, "speck": 1,
-    "cube": 3, "sphere": 4, "cyl": 2, "tet": 1, "levelset": 1, "extrude": 1, "revolve": 1, "hullpts": 1,
+    "cube": 3, "sphere": 4, "cyl": 2, "tet": 1, "levelset": 1, "extrude": 2, "xmulti": 1, "ctor": 2, "revolve": 1, "hullpts": 1,
     "rot": 4, "trans": 3, "scale": 1, "mirror": 1, "xf": 1, "rot90": 1,
     "add": 5, "sub": 5, "int": 3, "batch": 2, "split": 1, "splitplane": 1, "trim": 1, "selfop": 1, "compose": 1,
     "hull": 2, "hull2": 1, "minksum": 1, "minkdiff": 1,
@@ -47,7 +47,7 @@ MIX_HISTORY.update({"hugescale": 1, "scratch": 2, "copy": 3, "assign": 3, "moveo
                     "minkdiff": 0})
 
 # 2D heavy (C04 CrossSection arm)
-MIX_2D = {"circle": 4, "square": 2, "xpoly": 3, "xrot": 3, "xtrans": 3, "xscale": 1, "xadd": 5, "xsub": 5, "xint": 3,
+MIX_2D = {"circle": 4, "xmulti": 2, "square": 2, "xpoly": 3, "xrot": 3, "xtrans": 3, "xscale": 1, "xadd": 5, "xsub": 5, "xint": 3,
           "xbatch": 2, "xoffset": 3, "xhull": 1, "xsimplify": 1, "xdecompose": 1, "xwarp": 1, "extrude": 1, "revolve": 1,
           "slice": 1, "project": 1, "sphere": 1, "xmirror": 1}
 
